@@ -250,13 +250,16 @@ func TestC03(t *testing.T) {
 					})
 				}
 				// ---- perturbed paths naming no entry: nothing matches ----
-				if ni%3 == 0 {
+				if ni%3 == 0 || len(n.Aliases) > 0 {
 					var bad [][]string
 					if len(n.Path) >= 1 {
 						alt := append(append([]string(nil), n.Path[:len(n.Path)-1]...), n.Path[len(n.Path)-1]+"x")
 						bad = append(bad, alt)
 					}
 					bad = append(bad, append(append([]string(nil), n.Path...), "no-such-entry"))
+					for _, al := range n.Aliases {
+						bad = append(bad, append(append([]string(nil), n.Path...), al))
+					}
 					for _, dot := range []string{".", ".."} {
 						if n.isDir() && n.child(dot) == nil {
 							bad = append(bad, append(append([]string(nil), n.Path...), dot))
